@@ -77,7 +77,19 @@ for name in EXTENSIONS:
             for x in v.get(fld, []):
                 if x not in e.setdefault(fld, []):
                     e[fld].append(x)
-        if v.get("assumptions_replace"):
+        for x in v.get("theorems_add", []):
+            if x not in e["theorems"]:
+                e["theorems"].append(x)
+        if v.get("assumptions_remove"):
+            e["assumptions"] = [a_ for a_ in e.get("assumptions", []) if a_ not in set(v["assumptions_remove"])]
+        for a_ in v.get("assumptions_add", []):
+            if a_ not in e.setdefault("assumptions", []):
+                e["assumptions"].append(a_)
+        if isinstance(v.get("assumptions_replace"), dict):
+            e["assumptions"] = [a_ if not any(o in a_ for o in v["assumptions_replace"]) else
+                                [a_.replace(o, n_) for o, n_ in v["assumptions_replace"].items() if o in a_][0]
+                                for a_ in e.get("assumptions", [])]
+        elif v.get("assumptions_replace"):
             e["assumptions"] = list(v.get("assumptions", []))
         else:
             drop = set(v.get("assumptions_to_drop", []))
@@ -87,6 +99,12 @@ for name in EXTENSIONS:
                     e["assumptions"].append(a_)
     for k, v in h.get("manifest", {}).items():
         m = manifest[k] = dict(manifest[k])
+        if v.get("text"):
+            m["text"] = v["text"]
+        if v.get("note") and v.get("text"):
+            m["note"] = v["note"]
+        for o, n_ in (v.get("note_replace") or {}).items():
+            m["note"] = m.get("note", "").replace(o, n_)
         add = v.get("text_add") or v.get("text_addition")
         if add and add not in m.get("text", ""):
             m["text"] = m.get("text", "").rstrip() + " EXTENSION: " + add
